@@ -864,6 +864,19 @@ def lawRemoveGet (getR hasR : Value) : Bool := sameV getR .null && sameV hasR (.
 /-- `nth(set-nth(l, n, v), n) = v` -/
 def lawNthSetNth (v r : Value) : Bool := sameV r v
 
+/-- `str-slice(s, -k, e) = str-slice(s, len - k + 1, e)` (and the same on the end position) -/
+def lawSliceNeg (a b : Value) : Bool := sameV a b
+
+/-- a list built by `join`/`append` with two or more elements is `==` to the literal list spelt from
+    its own `inspect`/`list-separator`/`is-bracketed` answers, in both operand orders (so the
+    separator it carries inside is the one it reports) -/
+def lawEqLiteral (eq1 eq2 : Value) : Bool := sameV eq1 (.bool true) && sameV eq2 (.bool true)
+
+/-- the separator a value carries as a list -/
+def innerSep : Value → Option Sep
+  | .list _ s _ => some s
+  | _ => none
+
 /-- `nth(l, -k) = nth(l, len - k + 1)` -/
 def lawNthNeg (a b : Value) : Bool := sameV a b
 
@@ -912,6 +925,11 @@ def handle : List String → String
         | none => "bad-op"
       | none => "bad-op"
     | _, _ => "bad-op"
+  -- eq <variant> A B → ok <A == B> <B == A>   (`Grass.Value.veq` under the variant's equality)
+  | "eq" :: af :: r =>
+    match parseSw? af, parseValues 2 r with
+    | some sw, some [a, b] => s!"ok {boolStr (veq sw.eq a b)} {boolStr (veq sw.eq b a)}"
+    | _, _ => "bad-op"
   -- law <name> … → ok holds | ok fails
   | "law" :: "join_sep" :: s1 :: s2 :: ex :: r =>
     match parseSep? s1, parseSep? s2, optSep? ex, parseValues 1 r with
@@ -938,6 +956,8 @@ def handle : List String → String
         | "length_join", [a, b, c] => lawAnswer (lawLengthJoin a b c)
         | "nth_set_nth", [a, b] => lawAnswer (lawNthSetNth a b)
         | "nth_neg", [a, b] => lawAnswer (lawNthNeg a b)
+        | "slice_neg", [a, b] => lawAnswer (lawSliceNeg a b)
+        | "eq_literal", [a, b] => lawAnswer (lawEqLiteral a b)
         | "slice_concat", [s, a, b] => lawAnswer (lawSliceConcat s a b)
         | "length_insert", [a, b, c] => lawAnswer (lawLengthInsert a b c)
         | "index_slice", [s, sub, i, sl] => lawAnswer (lawIndexSlice s sub i sl)
